@@ -1145,6 +1145,8 @@ def rule_pyscf(repo, f, R):
 
 
 def run(repo, R):
+    from .momfam import compose_state_rules as _csr
+    _csr(R, repo, ['gbasis/parsers.py', 'gbasis/wrappers.py'], "the property holds for every call, also after a shell's parameters were changed through its setters")
     R.rule("UNDEF", "every name read in the parsers, make_contractions and from_pyscf is bound on every path that reaches the read")
     from ..pitfalls import report as _pitfalls
     _pitfalls(repo, R, ["gbasis.parsers", "gbasis.wrappers"], rule="UNDEF", kinds=("UNDEF",), only=lambda f_: "from_iodata" not in f_.qualname)
